@@ -85,6 +85,12 @@ def cases_sampler(tier):
                 for shared in (False, True):
                     yield "%s/R%dP%dN%d/mask=%s/%s" % (method, R, P, N, mask, "shared" if shared else "per-realization"), {
                         "method": method, "R": R, "P": P, "N": N, "mask": mask, "shared": shared, "options": {}}
+    # the configured method in its other supported spellings (any case, with or without the plug-in prefix; 'default' is 'norm')
+    for method in STATS + QMC:
+        for spelled in (method.upper(), "SciPy/" + method.title()):
+            yield "%s/R2P1N2/spelled-%s" % (method, spelled), {"method": method, "R": 2, "P": 1, "N": 2, "mask": None, "shared": False, "options": {}, "spelled": spelled}
+    for spelled in ("default", "Default", "scipy/default", "SciPy/DEFAULT"):
+        yield "norm/R2P1N2/spelled-%s" % spelled, {"method": "norm", "R": 2, "P": 1, "N": 2, "mask": None, "shared": False, "options": {}, "spelled": spelled}
     yield "uniform/R2P1N1/options-override", {"method": "uniform", "R": 2, "P": 1, "N": 1, "mask": None, "shared": False, "options": {"loc": 0.0, "scale": 0.5}}
     # partial options: the defaults still fill in what the user left out
     yield "uniform/R2P1N1/options-partial", {"method": "uniform", "R": 2, "P": 1, "N": 1, "mask": None, "shared": False, "options": {"scale": 2.0}}
@@ -122,7 +128,7 @@ def scn_sampler(T, case):
         cls = real.SciPySampler
     try:
         cfg = types.SimpleNamespace(
-            samplers=(types.SimpleNamespace(method="scipy/" + method, options=dict(case["options"]), shared=shared),),
+            samplers=(types.SimpleNamespace(method=case.get("spelled", "scipy/" + method), options=dict(case["options"]), shared=shared),),
             variables=types.SimpleNamespace(initial_values=np.zeros(N)),
             realizations=types.SimpleNamespace(weights=np.ones(R) / R),
             gradient=types.SimpleNamespace(number_of_perturbations=P),
